@@ -2,13 +2,22 @@
 
 use crate::ev::Ctx;
 
+pub mod c02;
+pub mod c03;
 pub mod c08;
+pub mod cmp31;
+pub mod c09;
+pub mod c10;
 
 pub type Runner = fn(&mut Ctx);
 
 pub fn lookup(prop: &str) -> Option<Runner> {
     Some(match prop {
+        "C02" => c02::run,
+        "C03" => c03::run,
         "C08" => c08::run,
+        "C09" => c09::run,
+        "C10" => c10::run,
         _ => return None,
     })
 }
